@@ -145,7 +145,10 @@ static void sub_amg() {
         roworder(c, std::string("amg<") + co + "," + re + ">", A, Ash, [&](const Csr<double> &M) { std::unique_ptr<RAMG> a(new RAMG(M.tie(), p)); std::ostringstream os; os << *a; std::string s = os.str(); size_t pos = s.find("Number of levels:"); if (pos != std::string::npos) levels = std::max<size_t>(levels, atoi(s.c_str() + pos + 17)); return a; }, r);
         // make_solver: the bundled system matrix must be the same operator, the solve must return a solution of the original system
         { typedef make_solver<RAMG, solver::fgmres<B>> S; boost::property_tree::ptree sp; sp.put_child("precond", p); sp.put("solver.maxiter", 200);
-          try { S s2(Ash.tie(), sp); std::vector<double> f = vf::random_vector(A.n, r), x(A.n, 0.0); auto res = s2(f, x); vf::SolveSpec spec; spec.maxiter = 200; spec.must_converge = (idx % 5 == 0 || idx % 5 == 1 || idx % 5 == 4);
+          std::vector<double> f = vf::random_vector(A.n, r); bool ref_ok = true, ref_conv = false;
+          try { S s1(A.tie(), sp); std::vector<double> x1(A.n, 0.0); auto r1 = s1(f, x1); ref_conv = std::get<1>(r1) <= 1e-8 && vf::true_relres(A, f, x1) <= 1.001e-8; }
+          catch (const std::exception &) { ref_ok = false; vf::obs_sum("sorted_reference_threw"); }   // class / generator limitation (e.g. singular coarse matrix), not a row-order matter
+          if (ref_ok) try { S s2(Ash.tie(), sp); std::vector<double> x(A.n, 0.0); auto res = s2(f, x); vf::SolveSpec spec; spec.maxiter = 200; spec.must_converge = ref_conv;   // must solve whenever the solver built from the sorted matrix does
                 vf::check_solution(c, "make_solver<amg,fgmres>(unsorted)", A, f, x, std::get<0>(res), std::get<1>(res), spec);
                 // system matrix of the bundle vs the user's matrix (amg sorts its private copy)
                 backend::numa_vector<double> X(f), Y(A.n); backend::spmv(1.0, s2.system_matrix(), X, 0.0, Y); auto ref = vf::spmv_ld(A, f); bool ok = true; for (size_t i = 0; i < A.n; ++i) { long double ac = 0; for (auto j = A.ptr[i]; j < A.ptr[i + 1]; ++j) ac += fabsl((long double)A.val[j] * f[A.col[j]]); if (!(fabsl(Y[i] - ref[i]) <= 2 * (A.ptr[i + 1] - A.ptr[i] + 4) * 2.22e-16L * ac)) ok = false; }
@@ -174,7 +177,9 @@ static void sub_coupled() {
             roworder(c, "schur_pressure_correction<type" + std::to_string(type) + ">", A, Ash, [&](const Csr<double> &M) { return std::unique_ptr<P>(new P(M.tie(), prm)); }, r); } }
         // make_solver over a coupled preconditioner built from unsorted rows must still return a solution of the original system
         { typedef make_solver<preconditioner::cpr<AMG, SP0>, solver::fgmres<B>> S; typename S::params prm; prm.precond.block_size = b; prm.precond.pprecond.coarse_enough = 8; prm.solver.maxiter = 300;
-          try { S s2(Ash.tie(), prm); std::vector<double> f = vf::random_vector(n, r), x(n, 0.0); auto res = s2(f, x); vf::SolveSpec spec; spec.maxiter = 300; vf::check_solution(c, "make_solver<cpr,fgmres>(unsorted)", A, f, x, std::get<0>(res), std::get<1>(res), spec); }
+          std::vector<double> f = vf::random_vector(n, r); bool ref_ok = true, ref_conv = false;
+          try { S s1(A.tie(), prm); std::vector<double> x1(n, 0.0); auto r1 = s1(f, x1); ref_conv = std::get<1>(r1) <= 1e-8 && vf::true_relres(A, f, x1) <= 1.001e-8; } catch (const std::exception &) { ref_ok = false; vf::obs_sum("sorted_reference_threw"); }
+          if (ref_ok) try { S s2(Ash.tie(), prm); std::vector<double> x(n, 0.0); auto res = s2(f, x); vf::SolveSpec spec; spec.maxiter = 300; spec.must_converge = ref_conv; vf::check_solution(c, "make_solver<cpr,fgmres>(unsorted)", A, f, x, std::get<0>(res), std::get<1>(res), spec); }
           catch (const std::exception &e) { c.fail("make_solver<cpr,fgmres>:exception-on-unsorted-rows", e.what()); } }
         c.nontrivial(5); vf::sample("roworder_coupled", J().n("block", b).n("cells", cells).n("n", n).s("shuffle", rev ? "reversed" : "random"));
     }
